@@ -10,14 +10,36 @@ import (
 type (
 	Mutex     = vsched.Mutex
 	RWMutex   = vsched.RWMutex
-	WaitGroup = sync.WaitGroup
-	Once      = sync.Once
-	Cond      = sync.Cond
+	WaitGroup = vsched.WaitGroup
+	Once      = vsched.Once
+	Cond      = vsched.Cond
 	Map       = sync.Map
 	Pool      = sync.Pool
 	Locker    = sync.Locker
 )
 
-func NewCond(l Locker) *Cond { return sync.NewCond(l) }
+func NewCond(l Locker) *Cond { return vsched.NewCond(l) }
 
-func OnceFunc(f func()) func() { return sync.OnceFunc(f) }
+func OnceFunc(f func()) func() {
+	var o Once
+	return func() { o.Do(f) }
+}
+
+func OnceValue[T any](f func() T) func() T {
+	var o Once
+	var v T
+	return func() T {
+		o.Do(func() { v = f() })
+		return v
+	}
+}
+
+func OnceValues[T1, T2 any](f func() (T1, T2)) func() (T1, T2) {
+	var o Once
+	var v1 T1
+	var v2 T2
+	return func() (T1, T2) {
+		o.Do(func() { v1, v2 = f() })
+		return v1, v2
+	}
+}
